@@ -91,6 +91,9 @@ pub fn run<const V: u32>() {
         // C06: soft / weak / phantom references and finalizers
         "refs" => crate::modes_refs::refs_mode::<V>(&mut d, &params, programs, ops, cfg.heap_mb),
         "immixlines" => crate::modes_immix::immixlines::<V>(&mut d, &params, cfg.heap_mb),
+        // family "barrier": C05 old-to-young stores / region copies, C12 SATB hiding patterns
+        "gen" => crate::modes_gen::gen_mode::<V>(&mut d, &params, programs, ops),
+        "satb" => crate::modes_satb::satb_mode::<V>(&mut d, &params, programs, ops, cfg.heap_mb),
         // family "space": C24 side-metadata layout of the configuration, C31 address lookups
         "layout" => crate::modes_space::layout::<V>(&plan),
         "churn" => crate::modes_space::churn::<V>(&mut d, &params, cfg.heap_mb, is_nogc),
